@@ -12,6 +12,9 @@
 #include <aws/common/logging.h>
 #include <pthread.h>
 #include <sched.h>
+#include <signal.h>
+#include <unistd.h>
+#include <aws/common/system_info.h>
 #include <stdarg.h>
 #include <stdlib.h>
 #include <string.h>
@@ -583,6 +586,7 @@ static struct op s_inj_op;
 static bool s_have_inj;
 static __thread unsigned s_yield_rng;
 
+static void s_point(int kind, bool inside);
 void verif_sched_point(int kind, const volatile void *addr) {
     (void)addr;
     if (s_threads_mode) {
@@ -598,8 +602,20 @@ void verif_sched_point(int kind, const volatile void *addr) {
     }
     bool inside = s_lock_depth > 0;
     if (kind == VSP_LOCK) {
-        ++s_lock_depth;
+        if (s_lock_depth > 0) {
+            /* single-threaded run: taking the tracer's (non-recursive) mutex while it is held never returns */
+            printf("P MONITOR deadlock: the tracer's mutex is taken while it is still held\n");
+            fflush(stdout);
+            _exit(3);
+        }
     }
+    s_point(kind, inside); /* may run a complete injected operation (which locks and unlocks) */
+    if (kind == VSP_LOCK) {
+        ++s_lock_depth; /* the caller takes the mutex right after this point */
+    }
+}
+
+static void s_point(int kind, bool inside) {
     if (inside || !s_main_active || s_in_inj || kind < 0 || kind >= 8) {
         return;
     }
@@ -675,25 +691,45 @@ static void s_drop_tracer(bool print) {
     s_depth = 0;
 }
 
+/* a tracer that leaves its mutex locked (or any other hang) must not stall the check: no operation of
+ * this harness takes anywhere near this long */
+static void s_watchdog(int sig) {
+    (void)sig;
+    static const char msg[] = "\nH watchdog: operation did not return within 10 s (deadlock?)\n";
+    if (write(1, msg, sizeof(msg) - 1) < 0) {
+    }
+    _exit(3);
+}
+
 static int s_interpreter(void) {
     char *t[HC_MAX_TOKS];
     int n;
+    signal(SIGALRM, s_watchdog);
     while ((n = hc_next_line(t)) >= 0) {
+        alarm(10);
         if (!strcmp(t[0], "case")) {
             s_drop_tracer(false);
             s_book_live = 0;
             hc_case_begin(t[1]);
-        } else if (!strcmp(t[0], "new") && (n == 3 || n == 4)) {
+        } else if (!strcmp(t[0], "new") && (n == 3 || n == 4 || (n == 5 && !strcmp(t[4], "nobt")))) {
             int lvl = !strcmp(t[1], "none") ? 0 : !strcmp(t[1], "bytes") ? 1 : !strcmp(t[1], "stacks") ? 2 : -1;
-            int cfg = n == 4 ? s_cfg_of(t[3]) : 0;
+            int cfg = n >= 4 ? s_cfg_of(t[3]) : 0;
             if (s_tr || lvl < 0 || cfg < 0 || !s_is_num(t[2])) {
                 printf("bad-op\n");
                 continue;
+            }
+            {
+                /* the op states which platform variant it is written for ("nobt": aws_backtrace() returns 0, i.e. the
+                 * flavour that links source/posix/system_info.c compiled without AWS_HAVE_EXECINFO); this executable
+                 * must be that one */
+                void *probe[1];
+                HC_CHECK((aws_backtrace(probe, 1) == 0) == (n == 5));
             }
             size_t frames = hc_parse_size(t[2]);
             s_book_live = 0;
             s_parent = &s_parents[cfg];
             s_tr = aws_mem_tracer_new(s_parent, NULL, (enum aws_mem_trace_level)lvl, frames);
+            s_lock_depth = 0;
             s_level = lvl;
             s_eff_frames = frames > 128 ? 128 : frames;
             s_eff_frames = s_eff_frames ? s_eff_frames : 8;
@@ -750,10 +786,14 @@ static int s_interpreter(void) {
             s_have_inj = false;
             s_fired = false;
             memset(s_seen, 0, sizeof(s_seen));
-            s_lock_depth = 0;
             s_main_active = s_armed;
             s_call(&o);
             s_main_active = false;
+            if (s_lock_depth != 0) {
+                printf("P MONITOR the operation returned with the tracer's mutex still held\n");
+                fflush(stdout);
+                _exit(3);
+            }
             if (s_armed && !s_fired) {
                 printf("P @inj unreached\n");
             }
@@ -892,6 +932,8 @@ static int s_threads(int argc, char **argv) {
     int lvl = !strcmp(argv[6], "none") ? 0 : !strcmp(argv[6], "bytes") ? 1 : 2;
     size_t frames = (size_t)atol(argv[7]);
     HC_CHECK(nt >= 1 && nt <= TMAX);
+    signal(SIGALRM, s_watchdog);
+    alarm(90);
     s_threads_mode = true;
     s_tr = aws_mem_tracer_new(s_parent, NULL, (enum aws_mem_trace_level)lvl, frames);
     s_level = lvl;
@@ -953,6 +995,7 @@ static int s_threads(int argc, char **argv) {
 }
 
 int main(int argc, char **argv) {
+    setvbuf(stdout, NULL, _IOLBF, 0); /* progressive output: a hang is attributable to the operation after the last line */
     aws_logger_set(&s_sink_logger);
     if (argc >= 2 && !strcmp(argv[1], "threads")) {
         return s_threads(argc, argv);
